@@ -541,3 +541,41 @@ def replay(path):
     for f in ctx.violations:
         print(open(f).read()[:3000])
     return 0
+
+
+def write_static_cfgs():
+    """spec/MC_LspSched*.cfg, spec/Trace_LspSched.cfg: the configurations run() generates, with the constants
+    measured on the current tree, for running TLC by hand (run() regenerates them from a fresh measurement)."""
+    fixed = dict(FixNotify=True, FixOpen=True, FixClear=True, FixSave=True)
+    full, cached, ab_f, ab_c = [1, 1, 2, 2, 1, 1, 0], [1, 0], [1, 1, 0], [1, 0]
+    invs = STRUCT_INVS + ["NoHangButKnown", "NoLostEditButKnown", "NoDefectEvent"]
+    out = {}
+    for t in [(0, 0, 1), (1, 0, 1), (2, 0, 1), (3, 0, 1), (0, 1, 1), (1, 1, 1), (2, 1, 1), (2, 0, 2)]:
+        out["MC_LspSched_%s" % cname(t)] = ("\\* LspSched.tla, repaired protocol (= the tree), 1 didOpen + %d didChange + %d didSave + %d waiting request(s), "
+                                            "abstract check points\n" % t) + cfg_text(conf(t[0], t[1], t[2], ab_f, ab_c, fixed), "Spec", invariants=invs + (["TerminalIffStuck"] if t == (1, 0, 1) else []))
+    out["MC_LspSched_real_c1s1w1"] = "\\* LspSched.tla, repaired protocol, check points / abort tails as measured on the real code\n" + \
+        cfg_text(conf(1, 1, 1, full, cached, fixed), "Spec", invariants=invs)
+    out["MC_LspSched_live_c1s1w1"] = "\\* LspSched.tla, repaired protocol, liveness under weak fairness of every thread\n" + \
+        cfg_text(conf(1, 1, 1, ab_f, ab_c, fixed), "FairSpec", invariants=invs, properties=["EveryWaiterReturns"])
+    for want, fl, inv, t in (
+            ("lost-wakeup", dict(FixNotify=False, FixOpen=False, FixClear=False, FixSave=False), "CexNoHang", (0, 0, 1)),
+            ("late-open-store", dict(FixNotify=True, FixOpen=False, FixClear=False, FixSave=False), "CexNoHang", (0, 0, 1)),
+            ("stale-retrigger", dict(FixNotify=True, FixOpen=True, FixClear=False, FixSave=False), "CexNoLostEdit", (1, 0, 1)),
+            ("cached-save-supersedes-change", dict(FixNotify=True, FixOpen=True, FixClear=True, FixSave=False), "CexNoLostEdit", (1, 1, 1))):
+        out["MC_LspSched_aswritten_%s" % want] = ("\\* MC_LspSched.tla: the protocol as originally written w.r.t. this repair; TLC must report %s violated "
+                                                  "and print the schedule (mechanism %s)\n" % (inv, want)) + \
+            cfg_text(conf(t[0], t[1], t[2], full, cached, fl), "HistSpec", invariants=[inv], view="View")
+    out["MC_LspSched_edges_c0s0w1"] = "\\* MC_LspSched.tla: prints every transition of the state graph (EDGE records)\n" + \
+        cfg_text(conf(0, 0, 1, full, cached, fixed), "EdgeSpec")
+    out["MC_LspSched_sim_c2s1w1"] = "\\* MC_LspSched.tla: run with -simulate num=N -depth 400 -seed S; prints the schedule of every finished behaviour\n" + \
+        cfg_text(conf(2, 1, 1, full, cached, fixed), "HistSpec", invariants=["PrintTerminal"])
+    out["Trace_LspSched"] = "\\* Trace_LspSched.tla: TRACE=<observed events .ndjson>; all threads a schedule may use\n" + \
+        cfg_text(conf(3, 1, 2, full, cached, fixed), "TraceSpec", postcondition="Accepted")
+    for name, text in out.items():
+        with open(os.path.join(SPEC, name + ".cfg"), "w") as f:
+            f.write(text)
+    return sorted(out)
+
+
+if __name__ == "__main__":
+    print("\n".join(write_static_cfgs()))
